@@ -101,9 +101,14 @@ def strategy_impl(draw, tier):
         v1, v2 = draw(values), draw(values)
         return {"where": where, "def": v1, "call": v2}
 
-    bvals = st.one_of(st.sampled_from(M.RULES), st.fixed_dictionaries({r: st.sampled_from(M.RULES) for r in names}))
+    def partial(vals):
+        # a mapping naming only some of the axes leaves the others to the Grid's settings
+        return st.sets(st.sampled_from(names), min_size=1).flatmap(lambda sub: st.fixed_dictionaries({r: vals for r in sorted(sub)}))
+
+    bvals = st.one_of(st.sampled_from(M.RULES), st.fixed_dictionaries({r: st.sampled_from(M.RULES) for r in names}), partial(st.sampled_from(M.RULES)))
     # zero is a value like any other (a call-time 0 must override a definition-time 5)
-    fvals = st.one_of(st.sampled_from([0.0, 1.0, -2.0, 7.5, 0]), st.fixed_dictionaries({r: st.sampled_from([1.0, -2.0, 7.5, 0.0]) for r in names}))
+    fvals = st.one_of(st.sampled_from([0.0, 1.0, -2.0, 7.5, 0]), st.fixed_dictionaries({r: st.sampled_from([1.0, -2.0, 7.5, 0.0]) for r in names}),
+                      partial(st.sampled_from([1.0, -2.0, 7.5, 0.0])))
     return {
         "axes": axes, "sig_in": sig_in, "sig_out": sig_out, "n_out": n_out, "bind": bind, "extra": extra, "inputs": inputs,
         "bw": bw, "bw_where": draw(st.sampled_from(["def", "call", "both"])), "pad_before": pad_before,
@@ -112,6 +117,8 @@ def strategy_impl(draw, tier):
         "pad_before_where": draw(st.sampled_from(["def", "call", "both"])),
         "boundary": opt(bvals), "fill_value": opt(fvals),
         "route": draw(st.sampled_from(["decorator-string", "decorator-hints", "apply"])),
+        # the very same GridUFunc object is used with another Grid (other axis defaults) first
+        "other_grid_first": draw(st.booleans()),
         "grid": draw(gen.grid_settings(names, exotic=False)),
         "misplace": draw(st.booleans()),
         "lazy": draw(st.sampled_from(["no", "def", "call", "both"])),
@@ -228,16 +235,30 @@ def check(case, ctx):
         else:
             fn = recorder
             sig_kw = {"signature": sig_string(case)}
+        def elsewhere_first(guf, **kw):
+            if not case.get("other_grid_first"):
+                return
+            g2 = build.make_grid(ds, axes, periodic=False, boundary={n: ("fill" if g_rules[n] != "fill" else "extend") for n in names},
+                                 fill_value={n: float(g_fills[n]) + 13.0 for n in names})
+            try:
+                guf(g2, *das, axis=axis_arg, **kw, **{k: build.copy_arg(v) for k, v in call_kw.items()})
+            except Exception:  # noqa: BLE001 - only there to leave traces on the ufunc object, if any
+                pass
+            record.clear()
+
         if bw_where == "def":
             guf = must_return("as_grid_ufunc", lambda: as_grid_ufunc(boundary_width=bw_arg, **sig_kw, **def_kw)(fn))
+            elsewhere_first(guf)
             got = must_return("GridUFunc call", guf, grid, *das, axis=axis_arg, **call_kw)
         elif bw_where == "both" and bw_arg is not None:
             decoy = {d: tuple(w) for d, w in case["bw_decoy"].items()}
             guf = must_return("as_grid_ufunc", lambda: as_grid_ufunc(boundary_width=decoy, **sig_kw, **def_kw)(fn))
+            elsewhere_first(guf, boundary_width=bw_arg)
             got = must_return("GridUFunc call overriding boundary_width", guf, grid, *das, axis=axis_arg, boundary_width=bw_arg, **call_kw)
         else:
             guf = must_return("as_grid_ufunc", lambda: as_grid_ufunc(**sig_kw, **def_kw)(fn))
             extra_kw = {"boundary_width": bw_arg} if bw_arg is not None else {}
+            elsewhere_first(guf, **extra_kw)
             got = must_return("GridUFunc call with call-time boundary_width", guf, grid, *das, axis=axis_arg, **extra_kw, **call_kw)
 
     if len(record) != 1:
